@@ -8,7 +8,7 @@
       [who xc nm np]   the cross index of every progeny = numpy.repeat(arange(ncross), nmating * nprogeny);
       [from_founder geno fs h]   every allele of h sits at the same marker in a copy of a founder listed in fs. *)
 From Coq Require Import Permutation.
-From PV Require Import Lib.Common Model.C01_Meiosis Model.C01_Mating Proofs.C01_Meiosis Proofs.C01_Mating.
+From PV Require Import Lib.Common Model.C01_Meiosis Model.C01_Mating Model.C01_Kit Gen.C01_Kernel Proofs.C01_Meiosis Proofs.C01_Mating Proofs.C01_Kernel.
 Local Open Scope Z_scope.
 
 (** one meiosis product is a left-to-right mosaic of the two copies of the selected individual; the source copy changes
@@ -121,6 +121,60 @@ Theorem C01_mate_defined : forall p geno xoprob meta xc nmating nprogeny nself p
   exists x, mate p geno xoprob meta xc nmating nprogeny nself pc fc draws = Some x.
 Proof. exact mate_defined. Qed.
 Print Assumptions C01_mate_defined.
+
+(** KERNEL — the definitions regenerated from the CURRENT source on every run (Gen/C01_Kernel.v, by harness/translate/c01_kernel.py:
+    the crossover test, the pieces of the segment-copy loop, mat_dh / mat_mate / dense_dh / dense_cross, the statements of
+    each protocol's mate() from the parent-index expansion to the constructor call, the metadata hand-over, nparent, name
+    prefix and width) are the ones the model is made of; [mate_k] is mate() assembled from them *)
+Theorem C01_kernel_is_model :
+  (forall u p, k_mat_xo u p = Qltb u p) /\ (forall u p, k_dense_xo u p = Qltb u p) /\
+  (forall geno i s rnd xoprob, k_mat_gamete geno i s rnd xoprob = gamete_seg geno s rnd xoprob) /\
+  (forall geno i s rnd xoprob, k_dense_gamete geno i s rnd xoprob = gamete_seg geno s rnd xoprob) /\
+  (forall fg mg fs ms xo r, k_mat_mate fg mg fs ms xo r = mat_mate fg mg fs ms xo r) /\
+  (forall fg mg fs ms xo r, k_dense_cross fg mg fs ms xo r = mat_mate fg mg fs ms xo r) /\
+  (forall g s xo r, k_mat_dh g s xo r = mat_dh g s xo r) /\ (forall g s xo r, k_dense_dh g s xo r = mat_dh g s xo r) /\
+  (forall p geno xo xc nm np nself pc fc r, k_raw p geno xo xc nm np nself pc fc r = mate_raw p geno xo xc nm np nself pc fc r) /\
+  (forall p m, k_meta p m = progeny_meta m) /\ (forall p, k_nparent p = nparent p) /\ (forall p, k_prefix p = prefix p /\ k_width p = 7%nat) /\
+  (forall p geno xoprob meta xc nmating nprogeny nself pc fc draws,
+     mate_k p geno xoprob meta xc nmating nprogeny nself pc fc draws = mate p geno xoprob meta xc nmating nprogeny nself pc fc draws).
+Proof. exact kernel_is_model. Qed.
+Print Assumptions C01_kernel_is_model.
+
+(** the crossover test of the source, as regenerated: with draws in [0,1) it fires only where the probability is positive (never
+    at an exact 0) and always for a draw strictly below the probability (always at probability 1) — in both copies of the code *)
+Theorem C01_kernel_crossover_boundary : forall u p : Q,
+  ((0 <= u)%Q -> k_mat_xo u p = true -> (0 < p)%Q) /\ ((0 <= u)%Q -> k_dense_xo u p = true -> (0 < p)%Q) /\
+  ((u < p)%Q -> k_mat_xo u p = true) /\ ((u < p)%Q -> k_dense_xo u p = true).
+Proof. intros u p. exact (conj (k_mat_xo_positive u p) (conj (k_dense_xo_positive u p) (conj (k_mat_xo_fires u p) (k_dense_xo_fires u p)))). Qed.
+Print Assumptions C01_kernel_crossover_boundary.
+
+(** the segment-copy loop of the source, assembled from its regenerated index expressions, initialisations and updates, yields a
+    mosaic of the two copies of the selected individual that switches only where xoprob > 0 (mat_meiosis and dense_meiosis) *)
+Theorem C01_kernel_gamete_mosaic : forall geno i s rnd xoprob,
+  length (row geno 0 s) = length xoprob -> length (row geno 1 s) = length xoprob -> nonneg_row rnd ->
+  mosaic xoprob (row geno 0 s) (row geno 1 s) (k_mat_gamete geno i s rnd xoprob) /\
+  mosaic xoprob (row geno 0 s) (row geno 1 s) (k_dense_gamete geno i s rnd xoprob).
+Proof. exact k_gamete_mosaic. Qed.
+Print Assumptions C01_kernel_gamete_mosaic.
+
+(** MOSAIC, DH and METADATA stated about mate() as regenerated from the source *)
+Theorem C01_kernel_mosaic : forall p geno xoprob meta xc nmating nprogeny nself pc fc draws x,
+  mate_k p geno xoprob meta xc nmating nprogeny nself pc fc draws = Some x -> nonneg_draws draws ->
+  forall j, (j < length (p_taxa x))%nat ->
+  exists i, (i < length xc)%nat /\ nth j (p_grp x) 0 = fc + Z.of_nat i /\
+            realises geno xoprob (designated p (nth i xc []) nself) (indiv (p_mat x) j).
+Proof. exact mate_k_mosaic. Qed.
+Print Assumptions C01_kernel_mosaic.
+
+Theorem C01_kernel_dh_homozygous : forall p geno xoprob meta xc nmating nprogeny nself pc fc draws x,
+  mate_k p geno xoprob meta xc nmating nprogeny nself pc fc draws = Some x -> is_dh p = true ->
+  nth 0 (p_mat x) [] = nth 1 (p_mat x) [].
+Proof. exact mate_k_dh. Qed.
+Print Assumptions C01_kernel_dh_homozygous.
+
+Theorem C01_kernel_metadata : forall p m, k_meta p m = m.
+Proof. exact k_meta_id. Qed.
+Print Assumptions C01_kernel_metadata.
 
 (** non-vacuity: a 3-taxa, 5-marker population (alleles incl. -128/127, xoprob incl. exact 0 and 1/2), a three-way DH cross with
     two matings, two progeny each and one selfing generation: the hypotheses hold, four progeny are produced from seven
